@@ -275,6 +275,25 @@ func (g *pgen) decorate(c *ConvSpec) {
 					es.Cands = append(es.Cands, f.Idx)
 				}
 				es.Text = prefix + ".*"
+				if g.r.Intn(3) == 0 {
+					// top-level alternation of the exact names; a decoy whose name starts with the first alternative (and one whose
+					// name ends with the last) for the same pair sorts after it: the pattern must match whole names only
+					var names []string
+					for _, f := range cands {
+						names = append(names, f.Name)
+					}
+					es.Text = strings.Join(names, "|")
+					d1 := g.newFunc(c, m, names[0]+"D", pp.S, pp.T, true)
+					d1.Pkg = cands[0].Pkg
+					d2 := g.newFunc(c, m, "Zz", pp.S, pp.T, true)
+					d2.Name = "Zz" + names[len(names)-1]
+					d2.Pkg = cands[0].Pkg
+					if cands[0].Pkg == 2 && (d1.Conv != "" || d2.Conv != "" || g.fnRefsP(d1) || g.fnRefsP(d2)) {
+						for _, x := range append(cands, d1, d2) {
+							x.Pkg = 1
+						}
+					}
+				}
 				if cands[0].Pkg == 2 {
 					es.Text = pkgPaths[2] + ":" + es.Text
 				}
